@@ -57,7 +57,8 @@ pub fn generate(ctx: &mut Ctx) {
     for i in 0..n {
         let mut rng = ctx.rng("pair", i);
         let mut o = gen::Opts::new(rng.chance(1, 2));
-        o.max_segs = 6;
+        o.max_segs = if rng.chance(1, 8) { 30 } else { 6 };
+        o.long = rng.chance(1, 10);
         o.bad_pct = rng.chance(1, 4);
         let ha = rng.chance(3, 4);
         let mut p = gen::parts_with(&mut rng, o, true, ha);
